@@ -19,6 +19,9 @@ import (
 // add and a TTL command, and every 0 ≤ i < j ≤ n: apply [0,i), Backup(i), apply [i,j),
 // Restore(i) → state recorded at i; re-apply [i,j) → state before the restore.
 
+// HLLPool: element-changing and idempotent PFADDs, a read that refreshes the cached count, a decoy.
+var HLLPool = [][]string{{"pfadd", "t:p", "e1"}, {"pfadd", "t:p", "e2"}, {"pfadd", "t:p", "e3"}, {"pfcount", "t:p"}, {"set", "t:k", "v"}}
+
 var BackupPool = [][]string{
 	{"set", "t:k", "v"}, {"incr", "t:c"}, {"hset", "t:h", "a", "1"}, {"rpush", "t:l", "x"}, {"sadd", "t:s", "m"},
 	{"zadd", "t:z", "1", "m"}, {"pfadd", "t:p", "e1"}, {"setex", "t:e", "1000", "v"}, {"del", "t:k"}, {"hclear", "t:h"},
@@ -237,6 +240,8 @@ func RunInterleaved(opt Options, col *ev.Collector, label string, pool [][]strin
 	base := int64(1600000000) * 1e9
 	s := Open(opt)
 	defer s.Destroy()
+	ref := Open(opt)
+	defer ref.Destroy()
 	hs := seqs(pool, 3)
 	for hi, h := range hs {
 		if len(h) != 3 {
@@ -247,15 +252,33 @@ func RunInterleaved(opt Options, col *ev.Collector, label string, pool [][]strin
 		}
 		s.Reset()
 		idx := uint64(hi*10 + 1)
-		w := func(k int) { s.Write(base+int64(k)*1e9, h[k]...) }
+		do := func(st *Store, k int) {
+			if h[k][0] == "pfcount" {
+				st.Read(h[k]...) // a read in the history: it refreshes the cached count
+				return
+			}
+			st.Write(base+int64(k)*1e9, h[k]...)
+		}
+		w := func(k int) { do(s, k) }
 		views := map[string]string{}
+		// what the store must show at each backup comes from a second store that replays the same
+		// commands and is never backed up: the store under test is not read between its commands
+		// (a read such as PFCOUNT refreshes cached state and would hide what a backup fails to flush)
+		refView := func(cmds ...int) string {
+			ref.Reset()
+			for _, k := range cmds {
+				do(ref, k)
+			}
+			return ref.view()
+		}
+		expected := map[string]string{"A": refView(0), "B": refView(0, 1), "C": refView(0, 2)}
 		mark := func(name string, index uint64) bool {
 			s.DB.SetLatestSnapIndex(idx) // keep all of this case's checkpoints
 			if err := s.backup(1, index); err != nil {
 				col.Add(ev.Violation{Property: "C14", Signature: "C14|interleaved|backup-failed", What: fmt.Sprintf("%s: history %v backup %s: %v", label, h, name, err)})
 				return false
 			}
-			views[name] = s.view() + s.Dump().Key(skipMetaKey)
+			views[name] = expected[name] + s.Dump().Key(skipMetaKey)
 			return true
 		}
 		w(0)
